@@ -437,8 +437,14 @@ func main() {
 	outDir := flag.String("outdir", "/verif/out", "")
 	cur := flag.String("cur", "", "")
 	replay := flag.String("replay", "", "")
+	dieIn := flag.String("die-in", "", "child mode of family panic: database file to die on")
 	scale := flag.Float64("scale", 1, "")
 	flag.Parse()
+	if *dieIn != "" {
+		dieChild(*dieIn, *seed)
+		return
+	}
+	_ = 0 // 
 	slog.SetDefault(slog.New(slog.NewTextHandler(io.Discard, nil)))
 
 	if err := selfTestTranslate(); err != nil {
@@ -495,6 +501,12 @@ func main() {
 			for i := 0; i < 4*n; i++ {
 				jobs = append(jobs, job{"commitfault", i})
 			}
+			for i := 0; i < 8*n; i++ {
+				jobs = append(jobs, job{"single", i})
+			}
+			for i := 0; i < n; i++ {
+				jobs = append(jobs, job{"panic", i})
+			}
 		}
 	}
 	guards := map[string]bool{}
@@ -522,6 +534,8 @@ func main() {
 			runCommitFault(r, rng)
 		case "single":
 			runSingle(r, rng)
+		case "panic":
+			runPanic(r, rng)
 		}
 		rep.Evaluations++
 		rep.Families[j.fam]++
